@@ -17,121 +17,221 @@ func pt(op string, p any) {
 	}
 }
 
+func af(op string) {
+	if vsync.Controlled() {
+		vsync.After("atomic-" + op)
+	}
+}
+
 type Int32 struct{ v atomic.Int32 }
 
-func (x *Int32) Load() int32                    { pt("load", x); return x.v.Load() }
-func (x *Int32) Store(n int32)                  { pt("store", x); x.v.Store(n) }
-func (x *Int32) Add(d int32) int32              { pt("add", x); return x.v.Add(d) }
-func (x *Int32) Swap(n int32) int32             { pt("swap", x); return x.v.Swap(n) }
-func (x *Int32) CompareAndSwap(o, n int32) bool { pt("cas", x); return x.v.CompareAndSwap(o, n) }
-func (x *Int32) And(m int32) int32              { pt("and", x); return x.v.And(m) }
-func (x *Int32) Or(m int32) int32               { pt("or", x); return x.v.Or(m) }
+func (x *Int32) Load() int32        { pt("load", x); return x.v.Load() }
+func (x *Int32) Store(n int32)      { pt("store", x); x.v.Store(n); af("store") }
+func (x *Int32) Add(d int32) int32  { pt("add", x); r := x.v.Add(d); af("add"); return r }
+func (x *Int32) Swap(n int32) int32 { pt("swap", x); r := x.v.Swap(n); af("swap"); return r }
+func (x *Int32) CompareAndSwap(o, n int32) bool {
+	pt("cas", x)
+	r := x.v.CompareAndSwap(o, n)
+	af("cas")
+	return r
+}
+func (x *Int32) And(m int32) int32 { pt("and", x); r := x.v.And(m); af("and"); return r }
+func (x *Int32) Or(m int32) int32  { pt("or", x); r := x.v.Or(m); af("or"); return r }
 
-func LoadInt32(p *int32) int32          { pt("load", p); return atomic.LoadInt32(p) }
-func StoreInt32(p *int32, n int32)      { pt("store", p); atomic.StoreInt32(p, n) }
-func AddInt32(p *int32, d int32) int32  { pt("add", p); return atomic.AddInt32(p, d) }
-func SwapInt32(p *int32, n int32) int32 { pt("swap", p); return atomic.SwapInt32(p, n) }
+func LoadInt32(p *int32) int32         { pt("load", p); return atomic.LoadInt32(p) }
+func StoreInt32(p *int32, n int32)     { pt("store", p); atomic.StoreInt32(p, n); af("store") }
+func AddInt32(p *int32, d int32) int32 { pt("add", p); r := atomic.AddInt32(p, d); af("add"); return r }
+func SwapInt32(p *int32, n int32) int32 {
+	pt("swap", p)
+	r := atomic.SwapInt32(p, n)
+	af("swap")
+	return r
+}
 func CompareAndSwapInt32(p *int32, o, n int32) bool {
 	pt("cas", p)
-	return atomic.CompareAndSwapInt32(p, o, n)
+	r := atomic.CompareAndSwapInt32(p, o, n)
+	af("cas")
+	return r
 }
 
 type Int64 struct{ v atomic.Int64 }
 
-func (x *Int64) Load() int64                    { pt("load", x); return x.v.Load() }
-func (x *Int64) Store(n int64)                  { pt("store", x); x.v.Store(n) }
-func (x *Int64) Add(d int64) int64              { pt("add", x); return x.v.Add(d) }
-func (x *Int64) Swap(n int64) int64             { pt("swap", x); return x.v.Swap(n) }
-func (x *Int64) CompareAndSwap(o, n int64) bool { pt("cas", x); return x.v.CompareAndSwap(o, n) }
-func (x *Int64) And(m int64) int64              { pt("and", x); return x.v.And(m) }
-func (x *Int64) Or(m int64) int64               { pt("or", x); return x.v.Or(m) }
+func (x *Int64) Load() int64        { pt("load", x); return x.v.Load() }
+func (x *Int64) Store(n int64)      { pt("store", x); x.v.Store(n); af("store") }
+func (x *Int64) Add(d int64) int64  { pt("add", x); r := x.v.Add(d); af("add"); return r }
+func (x *Int64) Swap(n int64) int64 { pt("swap", x); r := x.v.Swap(n); af("swap"); return r }
+func (x *Int64) CompareAndSwap(o, n int64) bool {
+	pt("cas", x)
+	r := x.v.CompareAndSwap(o, n)
+	af("cas")
+	return r
+}
+func (x *Int64) And(m int64) int64 { pt("and", x); r := x.v.And(m); af("and"); return r }
+func (x *Int64) Or(m int64) int64  { pt("or", x); r := x.v.Or(m); af("or"); return r }
 
-func LoadInt64(p *int64) int64          { pt("load", p); return atomic.LoadInt64(p) }
-func StoreInt64(p *int64, n int64)      { pt("store", p); atomic.StoreInt64(p, n) }
-func AddInt64(p *int64, d int64) int64  { pt("add", p); return atomic.AddInt64(p, d) }
-func SwapInt64(p *int64, n int64) int64 { pt("swap", p); return atomic.SwapInt64(p, n) }
+func LoadInt64(p *int64) int64         { pt("load", p); return atomic.LoadInt64(p) }
+func StoreInt64(p *int64, n int64)     { pt("store", p); atomic.StoreInt64(p, n); af("store") }
+func AddInt64(p *int64, d int64) int64 { pt("add", p); r := atomic.AddInt64(p, d); af("add"); return r }
+func SwapInt64(p *int64, n int64) int64 {
+	pt("swap", p)
+	r := atomic.SwapInt64(p, n)
+	af("swap")
+	return r
+}
 func CompareAndSwapInt64(p *int64, o, n int64) bool {
 	pt("cas", p)
-	return atomic.CompareAndSwapInt64(p, o, n)
+	r := atomic.CompareAndSwapInt64(p, o, n)
+	af("cas")
+	return r
 }
 
 type Uint32 struct{ v atomic.Uint32 }
 
-func (x *Uint32) Load() uint32                    { pt("load", x); return x.v.Load() }
-func (x *Uint32) Store(n uint32)                  { pt("store", x); x.v.Store(n) }
-func (x *Uint32) Add(d uint32) uint32             { pt("add", x); return x.v.Add(d) }
-func (x *Uint32) Swap(n uint32) uint32            { pt("swap", x); return x.v.Swap(n) }
-func (x *Uint32) CompareAndSwap(o, n uint32) bool { pt("cas", x); return x.v.CompareAndSwap(o, n) }
-func (x *Uint32) And(m uint32) uint32             { pt("and", x); return x.v.And(m) }
-func (x *Uint32) Or(m uint32) uint32              { pt("or", x); return x.v.Or(m) }
+func (x *Uint32) Load() uint32         { pt("load", x); return x.v.Load() }
+func (x *Uint32) Store(n uint32)       { pt("store", x); x.v.Store(n); af("store") }
+func (x *Uint32) Add(d uint32) uint32  { pt("add", x); r := x.v.Add(d); af("add"); return r }
+func (x *Uint32) Swap(n uint32) uint32 { pt("swap", x); r := x.v.Swap(n); af("swap"); return r }
+func (x *Uint32) CompareAndSwap(o, n uint32) bool {
+	pt("cas", x)
+	r := x.v.CompareAndSwap(o, n)
+	af("cas")
+	return r
+}
+func (x *Uint32) And(m uint32) uint32 { pt("and", x); r := x.v.And(m); af("and"); return r }
+func (x *Uint32) Or(m uint32) uint32  { pt("or", x); r := x.v.Or(m); af("or"); return r }
 
-func LoadUint32(p *uint32) uint32           { pt("load", p); return atomic.LoadUint32(p) }
-func StoreUint32(p *uint32, n uint32)       { pt("store", p); atomic.StoreUint32(p, n) }
-func AddUint32(p *uint32, d uint32) uint32  { pt("add", p); return atomic.AddUint32(p, d) }
-func SwapUint32(p *uint32, n uint32) uint32 { pt("swap", p); return atomic.SwapUint32(p, n) }
+func LoadUint32(p *uint32) uint32     { pt("load", p); return atomic.LoadUint32(p) }
+func StoreUint32(p *uint32, n uint32) { pt("store", p); atomic.StoreUint32(p, n); af("store") }
+func AddUint32(p *uint32, d uint32) uint32 {
+	pt("add", p)
+	r := atomic.AddUint32(p, d)
+	af("add")
+	return r
+}
+func SwapUint32(p *uint32, n uint32) uint32 {
+	pt("swap", p)
+	r := atomic.SwapUint32(p, n)
+	af("swap")
+	return r
+}
 func CompareAndSwapUint32(p *uint32, o, n uint32) bool {
 	pt("cas", p)
-	return atomic.CompareAndSwapUint32(p, o, n)
+	r := atomic.CompareAndSwapUint32(p, o, n)
+	af("cas")
+	return r
 }
 
 type Uint64 struct{ v atomic.Uint64 }
 
-func (x *Uint64) Load() uint64                    { pt("load", x); return x.v.Load() }
-func (x *Uint64) Store(n uint64)                  { pt("store", x); x.v.Store(n) }
-func (x *Uint64) Add(d uint64) uint64             { pt("add", x); return x.v.Add(d) }
-func (x *Uint64) Swap(n uint64) uint64            { pt("swap", x); return x.v.Swap(n) }
-func (x *Uint64) CompareAndSwap(o, n uint64) bool { pt("cas", x); return x.v.CompareAndSwap(o, n) }
-func (x *Uint64) And(m uint64) uint64             { pt("and", x); return x.v.And(m) }
-func (x *Uint64) Or(m uint64) uint64              { pt("or", x); return x.v.Or(m) }
+func (x *Uint64) Load() uint64         { pt("load", x); return x.v.Load() }
+func (x *Uint64) Store(n uint64)       { pt("store", x); x.v.Store(n); af("store") }
+func (x *Uint64) Add(d uint64) uint64  { pt("add", x); r := x.v.Add(d); af("add"); return r }
+func (x *Uint64) Swap(n uint64) uint64 { pt("swap", x); r := x.v.Swap(n); af("swap"); return r }
+func (x *Uint64) CompareAndSwap(o, n uint64) bool {
+	pt("cas", x)
+	r := x.v.CompareAndSwap(o, n)
+	af("cas")
+	return r
+}
+func (x *Uint64) And(m uint64) uint64 { pt("and", x); r := x.v.And(m); af("and"); return r }
+func (x *Uint64) Or(m uint64) uint64  { pt("or", x); r := x.v.Or(m); af("or"); return r }
 
-func LoadUint64(p *uint64) uint64           { pt("load", p); return atomic.LoadUint64(p) }
-func StoreUint64(p *uint64, n uint64)       { pt("store", p); atomic.StoreUint64(p, n) }
-func AddUint64(p *uint64, d uint64) uint64  { pt("add", p); return atomic.AddUint64(p, d) }
-func SwapUint64(p *uint64, n uint64) uint64 { pt("swap", p); return atomic.SwapUint64(p, n) }
+func LoadUint64(p *uint64) uint64     { pt("load", p); return atomic.LoadUint64(p) }
+func StoreUint64(p *uint64, n uint64) { pt("store", p); atomic.StoreUint64(p, n); af("store") }
+func AddUint64(p *uint64, d uint64) uint64 {
+	pt("add", p)
+	r := atomic.AddUint64(p, d)
+	af("add")
+	return r
+}
+func SwapUint64(p *uint64, n uint64) uint64 {
+	pt("swap", p)
+	r := atomic.SwapUint64(p, n)
+	af("swap")
+	return r
+}
 func CompareAndSwapUint64(p *uint64, o, n uint64) bool {
 	pt("cas", p)
-	return atomic.CompareAndSwapUint64(p, o, n)
+	r := atomic.CompareAndSwapUint64(p, o, n)
+	af("cas")
+	return r
 }
 
 type Uintptr struct{ v atomic.Uintptr }
 
-func (x *Uintptr) Load() uintptr                    { pt("load", x); return x.v.Load() }
-func (x *Uintptr) Store(n uintptr)                  { pt("store", x); x.v.Store(n) }
-func (x *Uintptr) Add(d uintptr) uintptr            { pt("add", x); return x.v.Add(d) }
-func (x *Uintptr) Swap(n uintptr) uintptr           { pt("swap", x); return x.v.Swap(n) }
-func (x *Uintptr) CompareAndSwap(o, n uintptr) bool { pt("cas", x); return x.v.CompareAndSwap(o, n) }
-func (x *Uintptr) And(m uintptr) uintptr            { pt("and", x); return x.v.And(m) }
-func (x *Uintptr) Or(m uintptr) uintptr             { pt("or", x); return x.v.Or(m) }
+func (x *Uintptr) Load() uintptr          { pt("load", x); return x.v.Load() }
+func (x *Uintptr) Store(n uintptr)        { pt("store", x); x.v.Store(n); af("store") }
+func (x *Uintptr) Add(d uintptr) uintptr  { pt("add", x); r := x.v.Add(d); af("add"); return r }
+func (x *Uintptr) Swap(n uintptr) uintptr { pt("swap", x); r := x.v.Swap(n); af("swap"); return r }
+func (x *Uintptr) CompareAndSwap(o, n uintptr) bool {
+	pt("cas", x)
+	r := x.v.CompareAndSwap(o, n)
+	af("cas")
+	return r
+}
+func (x *Uintptr) And(m uintptr) uintptr { pt("and", x); r := x.v.And(m); af("and"); return r }
+func (x *Uintptr) Or(m uintptr) uintptr  { pt("or", x); r := x.v.Or(m); af("or"); return r }
 
-func LoadUintptr(p *uintptr) uintptr            { pt("load", p); return atomic.LoadUintptr(p) }
-func StoreUintptr(p *uintptr, n uintptr)        { pt("store", p); atomic.StoreUintptr(p, n) }
-func AddUintptr(p *uintptr, d uintptr) uintptr  { pt("add", p); return atomic.AddUintptr(p, d) }
-func SwapUintptr(p *uintptr, n uintptr) uintptr { pt("swap", p); return atomic.SwapUintptr(p, n) }
+func LoadUintptr(p *uintptr) uintptr     { pt("load", p); return atomic.LoadUintptr(p) }
+func StoreUintptr(p *uintptr, n uintptr) { pt("store", p); atomic.StoreUintptr(p, n); af("store") }
+func AddUintptr(p *uintptr, d uintptr) uintptr {
+	pt("add", p)
+	r := atomic.AddUintptr(p, d)
+	af("add")
+	return r
+}
+func SwapUintptr(p *uintptr, n uintptr) uintptr {
+	pt("swap", p)
+	r := atomic.SwapUintptr(p, n)
+	af("swap")
+	return r
+}
 func CompareAndSwapUintptr(p *uintptr, o, n uintptr) bool {
 	pt("cas", p)
-	return atomic.CompareAndSwapUintptr(p, o, n)
+	r := atomic.CompareAndSwapUintptr(p, o, n)
+	af("cas")
+	return r
 }
 
 type Bool struct{ v atomic.Bool }
 
-func (x *Bool) Load() bool                    { pt("load", x); return x.v.Load() }
-func (x *Bool) Store(n bool)                  { pt("store", x); x.v.Store(n) }
-func (x *Bool) Swap(n bool) bool              { pt("swap", x); return x.v.Swap(n) }
-func (x *Bool) CompareAndSwap(o, n bool) bool { pt("cas", x); return x.v.CompareAndSwap(o, n) }
+func (x *Bool) Load() bool       { pt("load", x); return x.v.Load() }
+func (x *Bool) Store(n bool)     { pt("store", x); x.v.Store(n); af("store") }
+func (x *Bool) Swap(n bool) bool { pt("swap", x); r := x.v.Swap(n); af("swap"); return r }
+func (x *Bool) CompareAndSwap(o, n bool) bool {
+	pt("cas", x)
+	r := x.v.CompareAndSwap(o, n)
+	af("cas")
+	return r
+}
 
 type Pointer[T any] struct{ v atomic.Pointer[T] }
 
-func (x *Pointer[T]) Load() *T                    { pt("load", x); return x.v.Load() }
-func (x *Pointer[T]) Store(n *T)                  { pt("store", x); x.v.Store(n) }
-func (x *Pointer[T]) Swap(n *T) *T                { pt("swap", x); return x.v.Swap(n) }
-func (x *Pointer[T]) CompareAndSwap(o, n *T) bool { pt("cas", x); return x.v.CompareAndSwap(o, n) }
+func (x *Pointer[T]) Load() *T     { pt("load", x); return x.v.Load() }
+func (x *Pointer[T]) Store(n *T)   { pt("store", x); x.v.Store(n); af("store") }
+func (x *Pointer[T]) Swap(n *T) *T { pt("swap", x); r := x.v.Swap(n); af("swap"); return r }
+func (x *Pointer[T]) CompareAndSwap(o, n *T) bool {
+	pt("cas", x)
+	r := x.v.CompareAndSwap(o, n)
+	af("cas")
+	return r
+}
 
 type Value struct{ v atomic.Value }
 
-func (x *Value) Load() any                    { pt("load", x); return x.v.Load() }
-func (x *Value) Store(n any)                  { pt("store", x); x.v.Store(n) }
-func (x *Value) Swap(n any) any               { pt("swap", x); return x.v.Swap(n) }
-func (x *Value) CompareAndSwap(o, n any) bool { pt("cas", x); return x.v.CompareAndSwap(o, n) }
+func (x *Value) Load() any      { pt("load", x); return x.v.Load() }
+func (x *Value) Store(n any)    { pt("store", x); x.v.Store(n); af("store") }
+func (x *Value) Swap(n any) any { pt("swap", x); r := x.v.Swap(n); af("swap"); return r }
+func (x *Value) CompareAndSwap(o, n any) bool {
+	pt("cas", x)
+	r := x.v.CompareAndSwap(o, n)
+	af("cas")
+	return r
+}
 
-func LoadPointer(p *unsafe.Pointer) unsafe.Pointer     { pt("load", p); return atomic.LoadPointer(p) }
-func StorePointer(p *unsafe.Pointer, n unsafe.Pointer) { pt("store", p); atomic.StorePointer(p, n) }
+func LoadPointer(p *unsafe.Pointer) unsafe.Pointer { pt("load", p); return atomic.LoadPointer(p) }
+func StorePointer(p *unsafe.Pointer, n unsafe.Pointer) {
+	pt("store", p)
+	atomic.StorePointer(p, n)
+	af("store")
+}
